@@ -161,3 +161,6 @@ PROPS['C06'] = {'assumptions': ['single writer; base-index resets are run on the
 PROPS["C06"]["race"] = True
 PROPS["C06"]["streams"] = PROPS["C06"]["streams"] + [S("race06", 3, 60, vm=(0, 0), timeout=3000)]
 PROPS["C06"]["rule"] = PROPS["C06"].get("rule", "") + "; race06 (implementation only): a copy of the harness built with the Go race detector runs one writer (appends with rotation over sealed segments written by an earlier process, entries above 64 KiB, head truncations, tail truncations + re-appends) against three readers on a memory-backed real directory; oracles: no data race report, GetLog returns the entry asked for with intact self-describing payload, an entry returned earlier stays intact under later reads, no error for an entry no truncation overlapped"
+
+# C12 "StoreLogs followed by GetLog returns an equal log" is exercised through the WAL as well
+PROPS["C12"]["streams"] = PROPS["C12"]["streams"] + [S("seqapi", 80, 2000, vm=(3, 40), vm_maxlen=5000)]
